@@ -16,12 +16,16 @@ ASSUMPTIONS = ['xmlsec1 stand-in for the signatures; frozen clock; documents oth
                'class-name rule for standard second-level codes: exception class name == "Status" + last URI segment, case-insensitively']
 
 S = 'urn:oasis:names:tc:SAML:2.0:status:'
-TOP = ['Success', 'Requester', 'Responder', 'VersionMismatch', 'urn:verif:unknown-status', None]
+TOP = ['Success', 'Requester', 'Responder', 'VersionMismatch', 'urn:verif:unknown-status', None,
+       # unknown codes that end like the success code / contain it
+       'urn:verif:status:Success', 'urn:oasis:names:tc:SAML:2.0:status:Responder:Success', 'urn:oasis:names:tc:SAML:2.0:status:success', 'urn:oasis:names:tc:SAML:2.0:status:Success ']
 STANDARD_SUB = ['AuthnFailed', 'InvalidAttrNameOrValue', 'InvalidNameIDPolicy', 'NoAuthnContext', 'NoAvailableIDP', 'NoPassive', 'NoSupportedIDP', 'PartialLogout',
                 'ProxyCountExceeded', 'RequestDenied', 'RequestUnsupported', 'RequestVersionDeprecated', 'RequestVersionTooHigh', 'RequestVersionTooLow',
                 'ResourceNotRecognized', 'TooManyResponses', 'UnknownAttrProfile', 'UnknownPrincipal', 'UnsupportedBinding']
 OTHER_SUB = ['VersionMismatch', 'Responder', 'urn:verif:unknown-sub']
-VERSIONS = ['1.0', '1.1', '2.0', '2.1', '3.0', '', 'two', '2.0 ']
+VERSIONS = ['1.0', '1.1', '2.0', '2.1', '3.0', '', 'two', '2.0 ',
+            # fragments and look-alikes of the one supported value
+            '2', '2.', '.0', '0', '02.0', '2.00', '2,0']
 
 
 def _uri(x):
